@@ -2,7 +2,7 @@
    [unmarshal] is the model of vaa.Unmarshal with the payload-buffer size GENERATED from the source (vaa_paycap). *)
 From Coq Require Import List ZArith Lia Bool Arith.
 From Coq Require Import Strings.Byte.
-From WH Require Import lib.Bytes gen.Extracted model.Vaa proofs.VaaProofs.
+From WH Require Import lib.Bytes gen.Extracted model.Vaa proofs.VaaProofs gen.ExtractedVaaCodec.
 Import ListNotations.
 Open Scope Z_scope.
 
@@ -42,8 +42,41 @@ Example C05_long_payload : wfb (long_payload_vaa 1000) = true /\
   match unmarshal (marshal (long_payload_vaa 1000)) with Ok v => length (payload v) = 1001%nat | Err _ => False end.
 Proof. vm_compute. split; reflexivity. Qed.
 
+
+(* ---------------------------------------------------------------- the model IS the source (translator tie)
+   gen/x_vaacodec.py translates serializeBody, Marshal and Unmarshal of node/pkg/vaa/structs.go statement by statement (widths from
+   the Go type declarations) into go_body / go_marshal / go_parse_sigs / go_unmarshal_with on every run; the hand model the theorems
+   above are about is that translation, definition by definition.  A changed field order, width, conversion, error path or a
+   statement the translator does not know breaks this theorem (or the extractor). *)
+Lemma go_parse_sigs_is_model : forall n l, go_parse_sigs n l = parse_sigs n l.
+Proof. induction n as [|n IH]; intros l; cbn [go_parse_sigs parse_sigs]; [reflexivity|].
+  destruct (rd 1 ESigIndex l) as [[i l1]|e]; [|reflexivity]. destruct (rd 65 ESig l1) as [[d l2]|e]; [|reflexivity]. rewrite IH. reflexivity. Qed.
+
+Theorem C05_codec_follows_source :
+  (forall v, go_body v = body v) /\ (forall v, go_marshal v = marshal v) /\
+  (forall n l, go_parse_sigs n l = parse_sigs n l) /\
+  (forall pc d, go_unmarshal_with pc d = unmarshal_with pc d) /\ (forall d, go_unmarshal d = unmarshal d).
+Proof.
+  assert (U : forall pc d, go_unmarshal_with pc d = unmarshal_with pc d).
+  { intros pc d. unfold go_unmarshal_with, unmarshal_with.
+    destruct (length d <? vaa_min_len)%nat; [reflexivity|]. destruct (rd 1 ETooShort d) as [[ver l0]|e]; [|reflexivity].
+    destruct (negb (unbe ver =? vaa_version)); [reflexivity|]. destruct (rd 4 EGsIndex l0) as [[gi l1]|e]; [|reflexivity].
+    destruct (rd 1 ESigLen l1) as [[ns l2]|e]; [|reflexivity]. rewrite go_parse_sigs_is_model. reflexivity. }
+  repeat apply conj; [reflexivity|reflexivity|exact go_parse_sigs_is_model|exact U|intros d; exact (U vaa_paycap d)].
+Qed.
+
+(* so the round-trip theorems hold of the translated source text itself *)
+Theorem C05_source_round_trip : forall v, wf v -> go_unmarshal (go_marshal v) = Ok v.
+Proof. intros v W. destruct C05_codec_follows_source as (_ & M & _ & _ & U). rewrite M, U. apply C05_decode_encode. exact W. Qed.
+
+Theorem C05_source_accepted_reencodes : forall bs v, go_unmarshal bs = Ok v -> go_marshal v = bs /\ wf v.
+Proof. intros bs v H. destruct C05_codec_follows_source as (_ & M & _ & _ & U). rewrite U in H. rewrite M. apply C05_encode_decode. exact H. Qed.
+
 Print Assumptions C05_decode_encode.
 Print Assumptions C05_digest_preserved.
 Print Assumptions C05_encode_decode.
 Print Assumptions C05_accepts_exactly.
 Print Assumptions C05_error_otherwise.
+Print Assumptions C05_codec_follows_source.
+Print Assumptions C05_source_round_trip.
+Print Assumptions C05_source_accepted_reencodes.
